@@ -23,7 +23,17 @@ def quiet() -> None:
 
     getenv()
     log.silence()
+    production_defaults()
     _quiet = True
+
+
+def production_defaults() -> None:
+    """what application/server.py does at start-up and a harness which imports the modules directly would miss:
+    Attribute.caching = env.cache.attributes (true by default: the decoders run with their caches ON in the daemon)"""
+    from exabgp.bgp.message.update.attribute import Attribute
+    from exabgp.environment import getenv
+
+    Attribute.caching = bool(getenv().cache.attributes)
 
 
 def loud() -> None:
@@ -49,6 +59,7 @@ def loud() -> None:
     option.logger = types.SimpleNamespace(debug=sink, info=sink, warning=sink, error=sink, critical=sink, fatal=sink)
     log.logger = staticmethod(evaluate)
     log.evaluated = counter
+    production_defaults()
     _quiet = True
 
 
